@@ -184,23 +184,51 @@ func Progs(rc *vk.Rec) {
 		batch = batch[:0]
 	}
 	accepted := 0
-	gfams := []string{"G-high-bits-zero"}
-	for idx := int64(0); idx < int64(nTotal)+int64(len(gfams)); idx++ {
+	// Besides the seeded random sample every run enumerates, spread over the
+	// shards: (a) families aimed at the code generator rather than the checker
+	// (accepted programs whose C was once undefined): always run as C, under
+	// UBSan (c01) and trace comparison (c04); (b) the whole fact-invalidation
+	// matrix (M-kill: target x killer x loop exit x use), so that a checker
+	// that forgets one invalidation is seen whatever the seed.
+	type extra struct {
+		o       wprog.GenOptions
+		alwaysC bool
+	}
+	var extras []extra
+	if mode != "c02" {
+		for _, f := range []string{"G-high-bits-zero", "G-sat-small", "G-refined-arg-result", "G-io-arg-only-in-builtin"} {
+			for k := 0; k < 3; k++ {
+				extras = append(extras, extra{wprog.GenOptions{Family: f, Variant: 0, MaxScens: 1}, true})
+			}
+		}
+	}
+	fams := wprog.Families()
+	for k := 0; k < 4*fams["R-signed"]; k++ { // each variant on several signed types
+		extras = append(extras, extra{wprog.GenOptions{Family: "R-signed", Variant: k % fams["R-signed"], MaxScens: 1, MaxCalls: 1 << 20}, mode != "c02"})
+	}
+	for _, f := range []string{"S-choose", "F-unify"} {
+		for v := 0; v < fams[f]; v++ {
+			extras = append(extras, extra{wprog.GenOptions{Family: f, Variant: v, MaxScens: 1, MaxCalls: 1 << 20}, false})
+		}
+	}
+	for v := 0; v < wprog.KillVariants(); v++ {
+		extras = append(extras, extra{wprog.GenOptions{Family: "M-kill", Variant: v, MaxScens: 1, MaxCalls: 1 << 20}, false})
+	}
+	for idx := int64(0); idx < int64(nTotal)+int64(len(extras)); idx++ {
 		if rc.SkipCase(phase, idx) {
 			continue
 		}
-		rc.Mark(phase, idx)
-		r := rc.RNG(phase, idx)
 		o := opts
+		alwaysC := false
 		if idx >= int64(nTotal) {
-			// families aimed at the code generator rather than the checker
-			// (accepted programs whose C was once undefined): always run as
-			// C, by shard 0 only, under UBSan (c01) and trace comparison (c04)
-			if mode == "c02" || rc.Shard != 0 {
+			k := int(idx - int64(nTotal))
+			if rc.Only < 0 && k%rc.NShards != rc.Shard {
 				continue
 			}
-			o = wprog.GenOptions{Family: gfams[idx-int64(nTotal)], Variant: 0, MaxScens: 1}
+			o, alwaysC = extras[k].o, extras[k].alwaysC
 		}
+		rc.Mark(phase, idx)
+		r := rc.RNG(phase, idx)
 		c := wprog.GenCase(r, o)
 		if c == nil {
 			continue
@@ -280,7 +308,7 @@ func Progs(rc *vk.Rec) {
 		if rc.NSamples() < 3 && len(c.Calls) > 0 && len(c.Calls) < 12 {
 			rc.Sample(map[string]interface{}{"id": c.ID, "source": c.Source, "calls": len(c.Calls), "trace_head": headRecs(out.Trace, 3), "stats": out.Stats})
 		}
-		if accepted%cEvery == 0 || idx >= int64(nTotal) {
+		if accepted%cEvery == 0 || alwaysC {
 			batch = append(batch, pending{c, out, idx})
 			if len(batch) >= 24 {
 				flush()
